@@ -8,7 +8,7 @@ from .. import tlc, replay_engine, trace_engine
 from ..tlc import RawTLA, MachineryError
 
 MODULES = {"LwRing", "LwMatrix", "LwFock", "LwCircuitDefs", "LwEmuDefs", "LwCircuit"}
-DEFAULTS = dict(Scenario="single", NUs={3}, PNu=3, NObj=1, Numeric=True, MaxLen=2, MaxRej=0, MaxAnc=0,
+DEFAULTS = dict(Scenario="single", NUs={3}, PNu=3, TNu=(3, 2), NObj=1, Numeric=True, MaxLen=2, MaxRej=0, MaxAnc=0,
                 Kinds={"bs"}, BadModes=RawTLA("{}"), Rids={1}, Convs={"Rx"}, Lqs={0}, Pids={1}, LossQs={1}, BadVals=False,
                 SwapLevel=0, UIds={"H"}, HeraldNs={0, 1}, Targets={1}, AddPairs=RawTLA("{}"), TmplLoss=False,
                 Ordered=False, MaxHer=(2, 2, 2, 2), MaxAdds=3, RejLast=True, MaxComp=99, NPar=0, ParKinds=(), ParInit=(), ParVals=RawTLA("{}"),
@@ -187,7 +187,7 @@ def replay_file(pid, path, mine):
             print("note: continuous-parameter history; replayed with the recorded structure only")
     else:
         ctx = sc.get("ctx") or {}
-        init = ({"kind": "tmpl", "pnu": ctx.get("pnu", 3), "loss": ctx.get("tmpl_loss", False)} if ctx.get("scenario") == "tmpl"
+        init = ({"kind": "tmpl", "pnu": ctx.get("pnu", 3), "loss": ctx.get("tmpl_loss", False), "tnu": ctx.get("tnu", (3, 2))} if ctx.get("scenario") == "tmpl"
                 else {"kind": "sizes", "sizes": [ctx.get("nu", 3)]})
         s = {"init": init, "calls": prog_to_calls(sc["prog"]), "id": os.path.basename(path)}
     script_phase(chk, pid, "replay", [s], mine)
@@ -216,6 +216,15 @@ def float_reads(chk, c, term_c, S, order, rng, reads, mine, rec):
         todo.append((("ok", "simulate", 0, ins), er.sim_table(term_c, S, ins)))
     if "sdist" in reads:
         todo.append((("ok", "sdist", 0, ins), er.sampler_dist(term_c, S, ins)))
+        # almost switched-off / almost complete couplers: amplitudes of 1e-5 next to amplitudes of order one; every two-photon input
+        if nin >= 3 and herald_ph == 0 and any(isinstance(v, float) and (0 < v < 1e-8 or 0 < 1 - v < 1e-8) for v in rec.values):
+            import itertools
+            for i, j in itertools.combinations_with_replacement(range(min(nin, 4)), 2):
+                in2 = [0] * nin
+                in2[i] += 1
+                in2[j] += 1
+                if tuple(in2) != ins:
+                    todo.append((("ok", "sdist", 0, tuple(in2)), er.sampler_dist(term_c, S, tuple(in2))))
     if "analyze" in reads:
         todo.append((("ok", "analyze", 0, ins, frozenset()), er.analyzer_table(term_c, S, ins, frozenset(), lossy)))
     if "quick" in reads and nph > 0:
